@@ -20,6 +20,11 @@ for d in sorted(glob.glob('/verif/seeded/C*')):
     status = 'not run'
     if own:
         status = 'DETECTED' if own.get('detected') else ('missed' if own.get('applied') else 'patch does not apply')
+    other = [(k, v) for k, v in det.items() if k != m['property'] and v.get('detected')]
+    if own and not own.get('detected') and other:
+        k, v = other[0]
+        status = f"held under `./check {m['property']}` (overflow-class panic: owned by {k}) — DETECTED by `./check {k}`"
+        own = v
     sig = ''
     if own and own.get('detected'):
         sigs = [l.strip()[11:] for l in own.get('verdict_lines', []) if l.strip().startswith('signature:')]
